@@ -11,7 +11,7 @@ import warnings
 
 from hypothesis import strategies as st
 
-from asyncfix import FMsg, FTag
+from asyncfix import FIXMessage, FMsg, FTag
 from asyncfix.errors import FIXError, FIXMessageError
 from asyncfix.fix_tester import FIXTester
 from asyncfix.protocol.common import FExecType, FOrdStatus
@@ -24,7 +24,7 @@ PROPERTY = "C20"
 LEVEL = "exploration"
 RULE = (
     "(1) Fabrication: Hypothesis histories (<=25 steps quick, <=60 thorough) over one order (quantity / price from 0.0005 to 2.5 million, up to nine significant digits) with FIXTester as the exchange: "
-    "natural progress steps (ack, partial/full fill, order status reports (ExecType=I), pending cancel/replace, canceled, replaced, reject of a request, "
+    "natural progress steps (ack by the helper or by a report from outside carrying an exchange-style OrderID, partial/full fill, order status reports (ExecType=I), pending cancel/replace, canceled, replaced, reject of a request, "
     "client cancel / replace, reset_messages(), reports for further orders registered on the same helper) interleaved with probes calling fix_exec_report_msg with EVERY drawn ExecType x OrdStatus and "
     "drawn cum/leaves/last quantities, price, order qty, ClOrdID in {current, original}, OrigClOrdID, some processed and some "
     "not; fix_cxlrep_reject_msg for every status; the five session factories over their argument ranges. Calls refused by the "
@@ -43,6 +43,7 @@ ASSUMPTIONS = [
     "argument combinations refused by the helper's own assertions are outside the domain (counted as refused)",
     "session factories are called with arguments in their documented meaning (positive sequence numbers, EndSeqNo >= 0, printable TestReqID)",
     "tests/FIX44.xml is the FIX 4.4 dictionary",
+    "order quantity and price themselves are >= 1e-4: how Price / OrderQty are rendered is the order object's documented formatting hook (set_price_qty), not the helper's",
 ]
 _SCHEMA = None
 FIN = {"2", "4", "8", "C"}
@@ -165,6 +166,18 @@ class Run:
         for i, s in enumerate(self.steps):
             k = s[0]
             if k == "order":
+                continue
+            if k == "extack":
+                # the order was acknowledged by a report NOT fabricated by this helper (another tester instance before a
+                # reconnect, a hand-written fixture) carrying an exchange-style OrderID: the helper's reports must keep it
+                if str(o.status) != str(FOrdStatus.PENDING_NEW) or o.order_id is not None:
+                    continue
+                m = FIXMessage(FMsg.EXECUTIONREPORT, {11: o.clord_id, 37: "EX-20260922-77", 17: "ext-1", 150: "0", 39: "0", 55: "US.F.TICKER", 54: "1",
+                                                      14: "0", 151: str(o.qty), 6: "0", 38: str(o.qty)})
+                self.process(m, i)
+                if o.order_id == "EX-20260922-77":
+                    self.order_ids = {"EX-20260922-77"}
+                    self.flags.add("order-id-from-outside")
                 continue
             if k == "probe":
                 _, et, os_, cq, lq, lastq, px, oq, which, orig, avg, do_process = s
@@ -328,7 +341,7 @@ class Run:
         return None
 
 
-WARM = [[], [("natural", "ack", 0.5, True)], [("natural", "pending_new", 0.5, True), ("natural", "ack", 0.5, True)],
+WARM = [[], [("extack",)], [("extack",), ("natural", "partial", 0.25, True)], [("natural", "ack", 0.5, True)], [("natural", "pending_new", 0.5, True), ("natural", "ack", 0.5, True)],
         [("natural", "ack", 0.5, True), ("natural", "partial", 0.25, True)],
         [("natural", "ack", 0.5, True), ("client", "cancel", 150.0, 5.0)],
         [("natural", "ack", 0.5, True), ("natural", "partial", 0.5, True), ("client", "replace-both", 150.0, 20.0)]]
@@ -342,6 +355,7 @@ def fab_shard(acc, n, seed, maxlen):
 
 
 FIXED = [
+    [("order", 10.0, 200.0), ("extack",), ("natural", "partial", 0.25, True), ("natural", "status", 0.5, True), ("natural", "fill", 0.5, True)],
     [("order", 2500000.0, 1234567.25), ("natural", "ack", 0.5, True), ("natural", "partial", 0.25, True), ("natural", "partial", 0.5, True), ("natural", "fill", 0.5, True)],
     [("order", 100000.5, 0.015625), ("natural", "ack", 0.5, True), ("natural", "partial", 0.5, True), ("natural", "partial", 0.999, True), ("natural", "status", 0.5, True)],
     [("natural", "ack", 0.5, True), ("natural", "status", 0.5, True), ("natural", "partial", 0.25, True), ("natural", "status", 0.5, True), ("natural", "status", 0.5, False)],
